@@ -1282,3 +1282,264 @@ def man2_strict_reader_reports_orphan_fragments(P, R, L, rule="MAN-2"):
     R.check(rule, READ_RECORD + "|orphan-fragment-is-damage-in-strict-mode", len(arms) == 2 and bool(mode_false) and not bad, where(b),
             "from the `not assembling` edge of the Middle / Last arms the next read_physical_record is reachable only over the false edge of the strict-mode flag",
             "; ".join(sorted(set(bad))) or "arms %s, orphan edges %d, strict-mode tests %d" % (sorted(arms), n, len(mode_false)))
+
+
+# =========================================================================================== round 10 (module-focused seeds)
+
+# ------------------------------------------------------------------------------------------- SNAP-1 one list node per snapshot
+def snap1_one_node_per_snapshot(P, R, L, rule="SNAP-1"):
+    """snapshots::SnapshotList: every new_snapshot pushes a node of its own onto the list and every delete_snapshot removes the
+    node of the handle it was given, unconditionally.  A node shared by two handles (`nothing was written in between`) needs a
+    release rule that counts references - and any such count is wrong for a shared node that is not the newest one: the
+    survivor's state disappears from `oldest()` and a compaction drops what it still has to see."""
+    ns = P.body("snapshots::SnapshotList::new_snapshot")
+    ds = P.body("snapshots::SnapshotList::delete_snapshot")
+    if ns is None or ds is None:
+        return R.missing_anchor(rule, "SnapshotList::new_snapshot / delete_snapshot")
+    R.analysed(ns, ds)
+    is_list = lambda c, ms: "linked_list::LinkedList" in (c.name or "") and (c.name or "").rsplit("::", 1)[-1] in ms
+    push = [c for c in ns.calls() if not ns.is_cleanup(c.bb) and is_list(c, ("push", "push_node"))]
+    every = bool(push) and all(ns.must_pass(r, through_nodes=[c.bb for c in push]) for r in ns.return_blocks())
+    # the handle that is returned wraps the node that was just pushed
+    wraps = [c for c in ns.calls() if not ns.is_cleanup(c.bb) and (c.name or "") == "snapshots::Snapshot::new" and c.args]
+    fresh = bool(wraps) and all(any(o.kind == "call" and o.site is not None and o.site.bb in {p.bb for p in push} for o in origins(ns, c.args[0])) and
+                                not any(o.kind == "call" and (o.name or "").endswith(("::newest", "::oldest", "::tail", "::head")) for o in origins(ns, c.args[0]))
+                                for c in wraps)
+    R.check(rule, "snapshots::SnapshotList::new_snapshot|pushes-a-node-of-its-own", every and fresh, where(ns),
+            "every path pushes a new node and the returned handle wraps exactly that node", "push sites %d (on every path %s), handles %d (all fresh %s)" % (len(push), every, len(wraps), fresh))
+    rm = [c for c in ds.calls() if not ds.is_cleanup(c.bb) and is_list(c, ("remove_node",))]
+    every_rm = bool(rm) and all(ds.must_pass(r, through_nodes=[c.bb for c in rm]) for r in ds.return_blocks())
+    mine = bool(rm) and all(any(o.kind == "param" and o.name == 2 for o in _deep(ds, c.args[1])) for c in rm if len(c.args) > 1)
+    R.check(rule, "snapshots::SnapshotList::delete_snapshot|removes-the-node-unconditionally", every_rm and mine, where(ds),
+            "every path removes the node of the handle that was passed in", "remove sites %d (on every path %s, of the parameter %s)" % (len(rm), every_rm, mine))
+
+
+# ------------------------------------------------------------------------------------------- PAIR-8c the turn-around of the merge asks is_valid()
+def pair8c_turnaround_decided_by_is_valid(P, R, L, rule="PAIR-8"):
+    """MergingIterator::prev, when it turns round, re-seeks every other child to the current key and then either steps it back
+    (the child holds an entry >= the key) or puts it on its LAST entry (it holds none).  The two cases are told apart by
+    the child's is_valid(): CachingIterator::current() keeps returning the entry it cached last after the child ran off
+    its end, so `current().is_some()` sends an exhausted child down the step-back branch and it drops out of the backward
+    merge.  seek_to_last() of a child is reached only over the FALSE edge of that is_valid(), prev() of a child inside the
+    loop only over its TRUE edge."""
+    fn = "<versioning::file_iterators::MergingIterator as iterator::RainDbIterator>::prev"
+    b = P.body(fn)
+    if b is None:
+        return R.missing_anchor(rule, fn)
+    R.analysed(b)
+    CI = "<iterator::CachingIterator as iterator::RainDbIterator>::"
+    tr, fl = [], []
+    for c in b.calls():
+        if not b.is_cleanup(c.bb) and (c.name or "") == CI + "is_valid":
+            for t in bool_tests(b, c.dest["l"]):
+                tr += t.ok_edges()
+                fl += t.err_edges()
+    last = [c for c in b.calls() if not b.is_cleanup(c.bb) and (c.name or "") == CI + "seek_to_last" and in_cycle(b, c.bb)]
+    back = [c for c in b.calls() if not b.is_cleanup(c.bb) and (c.name or "") == CI + "prev" and in_cycle(b, c.bb)]
+    bad = ["seek_to_last at line %s is not behind `!child.is_valid()`" % c.line for c in last if not b.must_pass(c.bb, through_edges=fl)]
+    bad += ["prev at line %s is not behind `child.is_valid()`" % c.line for c in back if not b.must_pass(c.bb, through_edges=tr)]
+    R.check(rule, fn + "|turnaround-decided-by-is-valid", bool(last) and bool(back) and not bad, where(b),
+            "in the re-seek loop a child is stepped back behind is_valid() and put on its last entry behind !is_valid()", "; ".join(bad) or "seek_to_last sites %d, prev sites %d" % (len(last), len(back)))
+
+
+# ------------------------------------------------------------------------------------------- OWN-15 who may say `not in this file`
+NOT_FOUND_MAY_BE_BUILT_IN = {
+    "tables::errors::ReadError": ("tables::table::Table::get",),
+    "errors::RainDBError": ("<memtable::SkipListMemTable as memtable::MemTable>::get", "db::DB::get"),
+}
+
+
+def own15_who_may_say_not_found(P, R, L, rule="OWN-15"):
+    """`KeyNotFound` makes the caller go on to the next older source (Version::get: the next file / level; DB::get: the next
+    memtable / the tables).  It is therefore built only where a source was actually searched and did not hold the key:
+    Table::get (index, filter, block), the memtable's get, and DB::get's final answer - never in the table cache or anywhere
+    else on the way (a table file that cannot be opened, for whatever reason, is an error: answering `not in this file`
+    serves the overwritten value from the file below)."""
+    n = 0
+    seen = {}
+    for p, b in sorted(P.bodies.items()):
+        if "as std::clone::Clone>::clone" in p or "as std::fmt::" in p:
+            continue
+        for bb in range(b.n):
+            if b.is_cleanup(bb):
+                continue
+            for st in b.blocks[bb]["stmts"]:
+                if st["k"] == "assign" and st["rv"]["k"] == "aggregate" and st["rv"].get("variant") == "KeyNotFound" and st["rv"].get("adt") in NOT_FOUND_MAY_BE_BUILT_IN:
+                    n += 1
+                    fnp = p.split("::{closure")[0]
+                    seen.setdefault((fnp, st["rv"]["adt"]), st.get("line"))
+    for (fnp, adt), line in sorted(seen.items()):
+        b = P.body(fnp)
+        R.check(rule, "%s|builds=%s::KeyNotFound" % (fnp, adt.rsplit("::", 1)[-1]), fnp in NOT_FOUND_MAY_BE_BUILT_IN[adt], "%s:%s" % (b.file if b is not None else "-", line),
+                "KeyNotFound is built only in %s" % ", ".join(x.rsplit("::", 2)[-2] + "::" + x.rsplit("::", 1)[-1] for x in NOT_FOUND_MAY_BE_BUILT_IN[adt]), fnp)
+    R.floor(rule, "constructions of KeyNotFound", n, 5)
+
+
+# ------------------------------------------------------------------------------------------- ERR-5 an I/O error stays an I/O error
+def err5_io_errors_keep_their_class(P, R, L, rule="ERR-5"):
+    """Every `From<std::io::Error>` of the repository's error enums files the error under the variant that means `the operation
+    failed` (IO), on every path and whatever its kind.  The log reader SKIPS what is classified as corruption / a parse
+    problem (documented for the WAL): an io::Error of some particular kind re-filed there turns a failed read during
+    replay into silently dropped records."""
+    n = 0
+    for p, b in sorted(P.bodies.items()):
+        if "as std::convert::From<std::io::Error>>::from" not in p or b.kind == "closure":
+            continue
+        adt = p.split(" as ")[0].lstrip("<")
+        R.analysed(b)
+        n += 1
+        built = []
+        for bb in range(b.n):
+            if b.is_cleanup(bb):
+                continue
+            for st in b.blocks[bb]["stmts"]:
+                if st["k"] == "assign" and st["rv"]["k"] == "aggregate" and st["rv"].get("adt") == adt:
+                    built.append((bb, st["rv"].get("variant")))
+        kinds = [c for c in b.calls() if not b.is_cleanup(c.bb) and (c.name or "").endswith("io::Error::kind")]
+        if adt.endswith("DBIOError"):
+            ok = not any(t["k"] == "switch" for t in (b.term(x) for x in range(b.n) if not b.is_cleanup(x)))
+            det = "struct conversion, branches: %s" % (not ok)
+        else:
+            io_blocks = [bb for (bb, v) in built if v == "IO"]
+            ok = bool(io_blocks) and all(v == "IO" for (_, v) in built) and all(b.must_pass(r, through_nodes=io_blocks) for r in b.return_blocks())
+            det = "variants built %s" % sorted({str(v) for (_, v) in built})
+        R.check(rule, p + "|always-the-io-variant", ok, where(b), "an io::Error is converted to the IO variant of %s on every path" % adt.rsplit("::", 1)[-1], det)
+    R.floor(rule, "From<io::Error> conversions", n, 5)
+
+
+# ------------------------------------------------------------------------------------------- BLKW-1 entry headers go through the varint encoder
+def blkw1_entry_header_through_the_codec(P, R, L, rule="BLKW-1"):
+    """BlockBuilder::add_entry writes three lengths per entry and BlockReader::deserialize_entries reads them back with
+    u32::decode_var (AGR-2 checks the codec kind and width site for site).  Every byte that add_entry puts into the block
+    buffer is the output of the varint encoder, a slice of the key, or the value: no single byte is pushed by hand (a
+    one-byte fast path `value <= 128 => push(value as u8)` writes 0x80 for 128, which the reader takes for a continuation
+    byte - the rest of the block is misparsed)."""
+    fn = "tables::block_builder::BlockBuilder::<K>::add_entry"
+    b = P.body(fn)
+    if b is None:
+        return R.missing_anchor(rule, fn)
+    R.analysed(b)
+    def into_buffer(c):
+        return bool(c.args) and any("buffer" in o.path for o in origins(b, c.args[0]))
+    pushes = [c for c in b.calls() if not b.is_cleanup(c.bb) and strip_generics(c.name or "").endswith(("Vec::push", "Vec::insert")) and into_buffer(c)]
+    exts = [c for c in b.calls() if not b.is_cleanup(c.bb) and strip_generics(c.name or "").rsplit("::", 1)[-1] in ("extend", "extend_from_slice", "append") and into_buffer(c)]
+    enc = [c for c in exts if len(c.args) > 1 and any(o.kind == "call" and "encode_var" in (o.name or "") for o in origins(b, c.args[1]))]
+    R.check(rule, fn + "|no-hand-written-bytes", not pushes and len(enc) >= 3, where(b),
+            "the block buffer receives the three lengths as u32::encode_var output and is never pushed a single byte",
+            "single-byte pushes at line(s) %s; varint writes %d of %d buffer writes" % ([c.line for c in pushes], len(enc), len(exts)))
+
+
+# ------------------------------------------------------------------------------------------- AGR-5 filter index = offset / range on both sides
+def agr5_filter_index_from_the_plain_offset(P, R, L, rule="AGR-5"):
+    """The filter that covers a data block is chosen by `block offset / range size`, by the builder (notify_new_data_block, told
+    the offset at which the NEXT block starts) and by the reader (key_may_match, given the handle's offset).  On both sides
+    the dividend is the offset that was passed in, unchanged: an adjustment on one side only (the descriptor's 5 bytes
+    added once more) files the keys of a block that starts just below a range boundary under the neighbouring filter."""
+    n = 0
+    for fn, argn in (("tables::filter_block_builder::FilterBlockBuilder::notify_new_data_block", 2), ("tables::filter_block::FilterBlockReader::key_may_match", 2)):
+        b = P.body(fn)
+        if b is None:
+            R.missing_anchor(rule, fn)
+            continue
+        R.analysed(b)
+        divs = []
+        for bb in range(b.n):
+            if b.is_cleanup(bb):
+                continue
+            for st in b.blocks[bb]["stmts"]:
+                if st["k"] == "assign" and st["rv"]["k"] == "binop" and st["rv"]["op"] in ("Div", "Shr"):
+                    divs.append(st)
+        good = []
+        for st in divs:
+            os_ = origins(b, st["rv"]["ops"][0])
+            good.append(bool(os_) and all(o.kind == "param" and o.name == argn and not o.path for o in os_))
+        n += 1
+        R.check(rule, fn + "|dividend-is-the-offset-as-given", bool(divs) and all(good), where(b),
+                "the filter index is the offset parameter divided by the range size, with nothing added to or taken from the offset", "divisions %d, plain %d" % (len(divs), sum(good)))
+    R.floor(rule, "filter index computations", n, 2)
+
+
+# ------------------------------------------------------------------------------------------- TS-3 a finalized builder is not abandoned
+def ts3_no_abandon_after_finalize(P, R, L, rule="TS-3"):
+    """TableBuilder::finalize marks the file closed before it writes the filter, metaindex, index and footer; abandon asserts that
+    the file is NOT closed.  So in no function is abandon() reachable after finalize() was called on the builder - also
+    not on the path where finalize failed (the assertion would take down the compaction thread with the scheduled flag
+    set: every waiter hangs)."""
+    FIN, ABN = "tables::table_builder::TableBuilder::finalize", "tables::table_builder::TableBuilder::abandon"
+    n = 0
+    for p, b in sorted(P.bodies.items()):
+        fins = [c for c in b.calls() if not b.is_cleanup(c.bb) and c.name == FIN]
+        abns = [c for c in b.calls() if not b.is_cleanup(c.bb) and c.name == ABN]
+        if not fins or not abns:
+            continue
+        R.analysed(b)
+        n += 1
+        bad = []
+        for f_ in fins:
+            if f_.target is None:
+                continue
+            reach = b.reachable(f_.target)
+            for a in abns:
+                if a.bb in reach and not (f_.bb in b.reachable(a.target) if a.target is not None else False and False):
+                    bad.append("abandon at line %s is reachable after finalize at line %s" % (a.line, f_.line))
+                elif a.bb in reach:
+                    # both in one loop: acceptable only if the builder is replaced in between (not analysed) -> report
+                    bad.append("abandon at line %s is reachable after finalize at line %s (loop)" % (a.line, f_.line))
+        R.check(rule, p + "|abandon-never-follows-finalize", not bad, where(b), "no abandon() is reachable from behind a finalize() call", "; ".join(sorted(set(bad))) or "finalize sites %d, abandon sites %d" % (len(fins), len(abns)))
+    R.floor(rule, "functions that both finalize and abandon a table builder", n, 1)
+
+
+# ------------------------------------------------------------------------------------------- GRD-38 the group builder only fails where it cannot
+def grd38_group_builder_errors_are_unreachable(P, R, L, rule="GRD-38"):
+    """DB::apply_changes calls build_group_commit_batch with `?` while the calling writer is the head of the writer queue and has
+    not been popped: an Err there returns without handing the queue on, and every later writer parks for ever (ORD-11 lists
+    that `?` as its one exception).  The exception is sound only because the helper fails under exactly two conditions
+    that its caller has excluded - an empty queue and a head without a batch: every Err the helper builds lies behind the
+    None edge of `writer_queue.front()` or of the head's `maybe_batch()`."""
+    fn = "db::DB::build_group_commit_batch"
+    b = P.body(fn)
+    if b is None:
+        return R.missing_anchor(rule, fn)
+    R.analysed(b)
+    from ..rules import option_tests
+    none_e = []
+    for c in b.calls():
+        if b.is_cleanup(c.bb):
+            continue
+        nm = c.name or ""
+        if nm.endswith(("VecDeque::front", "VecDeque::<T, A>::front", "Writer::maybe_batch")) or nm.rsplit("::", 1)[-1] in ("front", "maybe_batch"):
+            for t in option_tests(b, c.dest["l"]):
+                none_e += t.err_edges()
+        if nm.rsplit("::", 1)[-1] == "is_empty" and c.args and any("writer_queue" in o.path for o in origins(b, c.args[0])):
+            for t in bool_tests(b, c.dest["l"]):
+                none_e += t.ok_edges()      # `no head writer`, spelled as an emptiness test of the queue
+    errs = [(bb, st.get("line")) for bb in range(b.n) if not b.is_cleanup(bb) for st in b.blocks[bb]["stmts"]
+            if st["k"] == "assign" and st["pl"]["l"] == 0 and not st["pl"]["p"] and _eff_rv(b, st["rv"]).get("variant") == "Err"]
+    # `?` inside the helper would be another source of Err
+    tries = [c for c in b.calls() if not b.is_cleanup(c.bb) and (c.declared_name or "").endswith("FromResidual::from_residual")]
+    bad = ["Err built at line %s is not behind `no head writer` / `head without a batch`" % ln for (bb, ln) in errs if not b.must_pass(bb, through_edges=none_e)]
+    bad += ["`?` at line %s" % c.line for c in tries]
+    R.check(rule, fn + "|fails-only-where-the-caller-excluded-it", bool(none_e) and not bad, where(b),
+            "every Err of the helper lies behind the None edge of writer_queue.front() or maybe_batch()", "; ".join(bad) or "Err sites %d, None edges %d" % (len(errs), len(none_e)))
+
+
+# ------------------------------------------------------------------------------------------- ITR-3 the collapse loops move one record at a time
+def itr3_collapse_loops_only_step(P, R, L, rule="ITR-3"):
+    """DatabaseIterator::find_next_client_entry / find_prev_client_entry collapse the records of the merged stream into client
+    entries by looking at EVERY record in order: inside them the inner iterator is moved only by next() (resp. prev()).
+    A re-seek shortcut (`skip the rest of this key`) lands on a record chosen by arithmetic on sequence numbers and steps
+    over the one the snapshot has to see."""
+    MI = "<versioning::file_iterators::MergingIterator as iterator::RainDbIterator>::"
+    n = 0
+    for fn, allowed in (("iterator::DatabaseIterator::find_next_client_entry", "next"), ("iterator::DatabaseIterator::find_prev_client_entry", "prev")):
+        b = P.body(fn)
+        if b is None:
+            R.missing_anchor(rule, fn)
+            continue
+        R.analysed(b)
+        n += 1
+        moves = [c for c in b.calls() if not b.is_cleanup(c.bb) and (c.name or "").startswith(MI) and (c.name or "")[len(MI):] in ("seek", "seek_to_first", "seek_to_last", "next", "prev")]
+        other = [c for c in moves if (c.name or "")[len(MI):] != allowed]
+        R.check(rule, fn + "|moves-only-by-%s" % allowed, bool(moves) and not other, where(b), "the inner iterator is moved only by %s()" % allowed,
+                "other movements: %s" % [(c.name or "")[len(MI):] + "@%s" % c.line for c in other] if other else "%d %s() sites" % (len(moves), allowed))
+    R.floor(rule, "collapse loops examined", n, 2)
